@@ -617,6 +617,37 @@ def _subst_atom(a, mp, names):
     return rebuild_atom(a, lambda q: _subst(q, mp, names))
 
 
+def map_apps(x, name, f):
+    """replace every application  name[args]  in x (also under binders) by f(*args)"""
+    if isinstance(x, Poly):
+        if not x.terms:
+            return x
+        acc = ZERO
+        for m, c in x.terms:
+            t = Poly.const(c)
+            for a, pw in m:
+                r = _map_apps_atom(a, name, f)
+                t = t * (r ** pw if pw != 1 else r)
+            acc = acc + t
+        return acc
+    if isinstance(x, Cond):
+        return rebuild_cond(x, lambda q: map_apps(q, name, f))
+    return x
+
+
+def _map_apps_atom(a, name, f):
+    k = a.kind
+    if k == "app" and a.args[0] == name:
+        return P(f(*[map_apps(q, name, f) if isinstance(q, (Poly, Cond)) else q for q in a.args[1:]]))
+    if k in ("sym", "bv"):
+        return Poly.atom(a, 1)
+    if k in BINDERS:
+        v, bound, body = open_binder(a)
+        nb = map_apps(bound, name, f) if bound is not None else None
+        return close_binder(k, v, nb, map_apps(body, name, f), a.sort)
+    return rebuild_atom(a, lambda q: map_apps(q, name, f))
+
+
 def rebuild_atom(a, f):
     """rebuild a non-binder atom after mapping f over its Poly/Cond args,
     re-applying the smart constructors."""
@@ -832,7 +863,7 @@ def mk_sum(v, bound, body):
                 VARBOUND[symname(hv)] = bound + 1
             return mk_sum(hv, bound + 1, shifted) - subst(shifted, {symname(hv): ZERO})
     nb = bound.as_int()
-    if nb is not None and nb <= CONCRETE_UNROLL:
+    if nb is not None and (nb <= CONCRETE_UNROLL or nb <= 1):     # a one-element (or empty) axis is always written out
         out = ZERO
         for i in range(nb):
             out = out + subst(body, {name: Poly.const(i)})
@@ -1542,6 +1573,47 @@ class EvalEnv:
         self.special = {"minv": _eval_matfun, "chol_lower": _eval_matfun, "chol_upper": _eval_matfun}
 
 
+_bvidx_cache = {}
+
+
+def _bv_indices(x):
+    """indices of the bound-variable atoms occurring anywhere in x (cached per term)"""
+    r = _bvidx_cache.get(x)
+    if r is not None:
+        return r
+    out = set()
+    stack = [x]
+    while stack:
+        y = stack.pop()
+        if isinstance(y, Poly):
+            if not y.hasbv:
+                continue
+            for m, _c in y.terms:
+                for at, _p in m:
+                    stack.append(at)
+        elif isinstance(y, Cond):
+            if y.hasbv:
+                stack.extend(q for q in y.args if isinstance(q, (Poly, Cond)))
+        elif isinstance(y, Atom):
+            if y.kind == "bv":
+                out.add(y.args[0])
+            else:
+                stack.extend(q for q in y.args if isinstance(q, (Poly, Cond, Atom)))
+    r = frozenset(out)
+    if len(_bvidx_cache) > 50000:
+        _bvidx_cache.clear()
+    _bvidx_cache[x] = r
+    return r
+
+
+def _bv_indices_atom(a):
+    r = _bvidx_cache.get(a)
+    if r is None:
+        r = frozenset().union(*[_bv_indices(q) for q in a.args if isinstance(q, (Poly, Cond))]) if a.hasbv else frozenset()
+        _bvidx_cache[a] = r
+    return r
+
+
 def _eval_matfun(a, env, bvs):
     """minv / cholesky atoms: app(name, n, lam(lam(body)), i, j) -- evaluated with numpy"""
     import numpy as np
@@ -1550,7 +1622,10 @@ def _eval_matfun(a, env, bvs):
     lam = a.args[2]
     i = int(round(evalf(a.args[3], env, bvs)))
     j = int(round(evalf(a.args[4], env, bvs)))
-    key = ("mat", name, lam.key, tuple(sorted(bvs.items())))
+    # the matrix depends only on the enclosing bound variables that occur in it (an enclosing binder is higher than everything
+    # bound inside the matrix expression, so restricting the environment to the occurring indices is exact)
+    rel = _bv_indices(lam)
+    key = ("mat", name, lam, tuple(sorted((k, v) for k, v in bvs.items() if k in rel)))
     cache = env.__dict__.setdefault("_matcache", {})
     if key not in cache:
         outer = lam.terms[0][0][0][0]
@@ -1633,6 +1708,13 @@ def _evala(a, env, bvs):
             raise KeyError(a.args[0])
         return f(*[int(round(v)) if float(v).is_integer() else v for v in args])
     if k in BINDERS and k != "lam":
+        # memo per evaluation point: a reduction nested in other reductions is asked for again and again with the same
+        # values of the enclosing variables IT depends on
+        memo = env.__dict__.setdefault("_redcache", {})
+        rel = _bv_indices_atom(a)
+        mk_ = (a, tuple(sorted((q, v) for q, v in bvs.items() if q in rel))) if a.size > 6 else None
+        if mk_ is not None and mk_ in memo:
+            return memo[mk_]
         n = int(round(evalf(a.args[0], env, bvs)))
         h = a.height - 1
         vals = []
@@ -1641,15 +1723,18 @@ def _evala(a, env, bvs):
             b2[h] = i
             vals.append(evalf(a.args[1], env, b2))
         if k == "sum":
-            return math.fsum(vals)
-        if k == "minred":
-            return min(vals)
-        if k == "maxred":
-            return max(vals)
-        if k == "argmin":
-            return vals.index(min(vals))
-        if k == "argmax":
-            return vals.index(max(vals))
+            r_ = math.fsum(vals)
+        elif k == "minred":
+            r_ = min(vals)
+        elif k == "maxred":
+            r_ = max(vals)
+        elif k == "argmin":
+            r_ = vals.index(min(vals))
+        else:
+            r_ = vals.index(max(vals))
+        if mk_ is not None:
+            memo[mk_] = r_
+        return r_
     if k == "exp":
         return math.exp(evalf(a.args[0], env, bvs))
     if k == "log":
